@@ -234,6 +234,7 @@ func fullAt(label string) bool { return label == "sched:free" }
 // execute runs one schedule; returns per-operation results, races, deadlock, panics.
 func execute(c *mcx.Ctx, cs Case, ch *mcx.Chooser) (results []string, s *sched.S) {
 	base := gen.FreshDir(c.Work, "exec")
+	intoto.VerifResetGlobals() // every schedule starts from a cold package: first use happens under the scheduler
 	s = sched.New(ch)
 	slot := 0
 	ownDir := map[string]string{}
@@ -297,6 +298,7 @@ func solo(c *mcx.Ctx, cs Case) []string {
 	slot := 0
 	for _, ops := range cs.Threads {
 		for _, op := range ops {
+			intoto.VerifResetGlobals()
 			out = append(out, prepare(base, op, slot)())
 			slot++
 		}
@@ -489,7 +491,7 @@ func init() {
 	mcx.Register(&mcx.Driver{
 		ID: "C16", Run: run, Replay: replay,
 		Rule: "operation multisets: every unordered pair of 15 operations on private data (RecordArtifacts on a plain tree / a 128 KiB file with two hash algorithms / file symlink / followed directory symlink / true cycle / a link reached on two ways; InTotoRun; sign+verify; dump+load; key loading; InTotoVerifyWithDirectory of a private chain; VerifyArtifacts; SubstituteParameters; a DSSE envelope with control characters set, signed, dumped and loaded; VerifyArtifacts with a malformed pattern never used before) as 2 threads x 1 operation, 2 threads x 2 operations over a sub-menu (thorough: larger sub-menu and 3 threads x 1 recording operation); " +
-			"for each, EVERY schedule with at most 2 (thorough 3) preemptions, where scheduling points are all accesses to every package-level variable of package in_toto (discovered by the overlay rewriter, so a hoisted buffer or cache becomes a point automatically) all sync.Mutex/RWMutex/Once/Map operations, and every file-system call of the package (os, path/filepath, io/ioutil functions taking a path: the overlay's file-system seam) on a path outside the directory prepared for the running operation - such a path is a shared object like a variable; oracle per schedule: no two conflicting accesses unordered by happens-before (vector clocks over the shimmed sync operations), no deadlock or panic, and every operation's result equals the result of the same operation made alone. states = executions, transitions = points passed.",
+			"for each, EVERY schedule with at most 2 (thorough 3) preemptions, where scheduling points are all accesses to every package-level variable of package in_toto (discovered by the overlay rewriter, so a hoisted buffer or cache becomes a point automatically) all sync.Mutex/RWMutex/Once/Map operations (every schedule starts from a cold package: the overlay's reset seam puts package-level state back to its initialisers, so lazily built state is built under the scheduler), and every file-system call of the package (os, path/filepath, io/ioutil functions taking a path: the overlay's file-system seam) on a path outside the directory prepared for the running operation - such a path is a shared object like a variable; oracle per schedule: no two conflicting accesses unordered by happens-before (vector clocks over the shimmed sync operations), no deadlock or panic, and every operation's result equals the result of the same operation made alone. states = executions, transitions = points passed.",
 		Assumptions: []string{
 			"memory-model effects below the granularity of variable accesses and races inside dependencies are outside (a free-running -race pass of the same bodies is auxiliary only)",
 			"goroutines and channels inside the library (RunCommand's pipe reader) are not scheduling points; they touch no package-level state",
@@ -530,6 +532,7 @@ func runFree(c *mcx.Ctx) {
 		rounds = append(rounds, round{16, ops})
 	}
 	for ri, rd := range rounds {
+		intoto.VerifResetGlobals() // each round starts cold (bodies run alone first warm the package up again, except in round 0)
 		procs := rd.procs
 		prev := setProcs(procs)
 		{
